@@ -31,13 +31,19 @@ package iqr
 //@   modifies ghost(iqr, "iqrN"), iqr.rrcs, iqr.isDirty
 //@   ensures implies(result == nil && numRecords <= uint64(old(ghost(iqr, "iqrN"))), uint64(ghost(iqr, "iqrN")) == numRecords)
 //@   ensures implies(result == nil && numRecords > uint64(old(ghost(iqr, "iqrN"))), ghost(iqr, "iqrN") == old(ghost(iqr, "iqrN")))
-//@   ensures ghost(iqr, "iqrN") >= 0
+//@   ensures ghost(iqr, "iqrN") >= 0 && ghost(iqr, "iqrN") <= old(ghost(iqr, "iqrN"))
 //@ end
 
 //@ func (*IQR).Append
 //@   assumed
 //@   modifies ghost(iqr, "iqrN"), iqr.rrcs, iqr.isDirty
 //@   ensures implies(result == nil && other != nil, ghost(iqr, "iqrN") == old(ghost(iqr, "iqrN")) + ghost(other, "iqrN"))
+//@ end
+
+// reads (and back-fills a private copy of) the named columns: frame only
+//@ func (*IQR).ReadColumnsWithBackfill
+//@   assumed
+//@   pure
 //@ end
 
 //@ func (*IQR).GetColumns
